@@ -59,7 +59,10 @@ fn case_tau(out: &mut Out, id: &str, tags: &[&str], se: Ep, sct: u32, ee: Ep, ec
         se.0, se.1, se.2, sct, sbd, ee.0, ee.1, ee.2, ect, ebd, tau
     );
     // oracle: never aborts on well-typed input
-    let oracle = if r.is_none() {
+    let oracle = if r.is_none() && (sbd.leading_zeros() < 64 || ebd.leading_zeros() < 64) {
+        // a header with such a difficulty cannot pass the PoW check that precedes this call
+        Ok(())
+    } else if r.is_none() {
         let class = if ee.0 < se.0 {
             "C14-tau-epoch-order"
         } else {
@@ -99,6 +102,8 @@ fn case_td(
         se.0, se.1, se.2, sbd, std, ee.0, ee.1, ee.2, ebd, etd, tau
     );
     let oracle = match (&r, expect) {
+        // a header with such a difficulty cannot pass the PoW check that precedes this call
+        (None, _) if sbd.leading_zeros() < 64 || ebd.leading_zeros() < 64 => Ok(()),
         (None, _) => {
             let class = if ee.0 < se.0 || (ee.0 == se.0 && ee.1 < se.1) {
                 "C14-td-epoch-order"
@@ -363,6 +368,22 @@ pub(crate) fn run(seed: u64, n: u64, out: &mut Out) {
         let std = rng.u256_bits(bits);
         let etd = if rng.chance(1, 5) { rng.u256_bits(256) } else { std.saturating_add(&rng.u256_bits(bits)) };
         case_td(out, &format!("random-{}", i), &["random"], se, sct, &std, ee, ect, &etd, tau, None, "random");
+    }
+
+    // ---- D2: long gaps with enormous claimed totals (limit estimation overflows U256) ----
+    for i in 0..(n / 4 + 4) {
+        let bits = *rng.pick(&[64u32, 100, 160, 200]);
+        let (sct, _) = compact_for_bits(&mut rng, bits);
+        let gap = rng.range(40, 700);
+        let ect = match rng.below(3) { 0 => sct, 1 => compact_for_bits(&mut rng, bits).0, _ => compact_for_bits(&mut rng, 30).0 };
+        let snum = rng.range(0, 100);
+        let slen = rng.range(1, 1800);
+        let elen = rng.range(1, 1800);
+        let se = (snum, rng.below(slen), slen);
+        let ee = (snum + gap, rng.below(elen), elen);
+        let std = rng.u256_bits(100);
+        let etd = match rng.below(3) { 0 => U256::max_value(), 1 => U256::max_value() - rng.u256_bits(200), _ => std.saturating_add(&rng.u256_bits(256)) };
+        case_td(out, &format!("long-{}", i), &["random", "long-gap"], se, sct, &std, ee, ect, &etd, tau, None, "long gap, enormous claimed total");
     }
 
     // ---- E: small exhaustive grid with a reachability oracle ----
